@@ -22,12 +22,92 @@ from vf.oracle import observe
 PROP = 'C01'
 
 
-def classify(src, opts, pm, orig, detail):
+def _direct_names(cls):
+    """(stored, loaded) names of the class body itself (not of scopes nested in it)"""
+    stored, loaded = set(), set()
+    stack = list(cls.body)
+    while stack:
+        n = stack.pop()
+        if isinstance(n, (ast.FunctionDef, ast.AsyncFunctionDef, ast.ClassDef)):
+            stored.add(n.name)
+            continue
+        if isinstance(n, (ast.Lambda, ast.ListComp, ast.SetComp, ast.DictComp, ast.GeneratorExp)):
+            continue
+        if isinstance(n, ast.Name):
+            (loaded if isinstance(n.ctx, ast.Load) else stored).add(n.id)
+        elif isinstance(n, ast.alias):
+            stored.add((n.asname or n.name).split('.')[0])
+        stack.extend(ast.iter_child_nodes(n))
+    return stored, loaded
+
+
+def class_fallback_names(tree):
+    """names X that a class body both binds and reads while a function around the class binds X too: the interpreter reads the *global* X there
+    (LOAD_NAME), the minifier resolves the read to the function's X (known finding C03.class_body.global_fallback_in_function)"""
+    out = set()
+
+    def walk(node, funcs):
+        for ch in ast.iter_child_nodes(node):
+            if isinstance(ch, ast.ClassDef) and funcs:
+                st, ld = _direct_names(ch)
+                for x in st & ld:
+                    for f in funcs:
+                        if any((isinstance(m, ast.Name) and m.id == x and not isinstance(m.ctx, ast.Load)) or (isinstance(m, ast.arg) and m.arg == x) or
+                               (isinstance(m, (ast.FunctionDef, ast.AsyncFunctionDef, ast.ClassDef)) and m.name == x and m is not f)
+                               for m in ast.walk(f)):
+                            out.add(x)
+            walk(ch, funcs + [ch] if isinstance(ch, (ast.FunctionDef, ast.AsyncFunctionDef, ast.Lambda)) else funcs)
+    walk(tree, [])
+    return out
+
+
+def static_mech(src, opts, out):
+    """mechanism keys that can be decided from the texts alone (used by the cross-interpreter layer too)"""
+    try:
+        tree = ast.parse(src)
+    except Exception:
+        return None
+    fb = class_fallback_names(tree)
+    if fb and out:
+        try:
+            otree = ast.parse(out)
+        except Exception:
+            otree = None
+        if otree is not None:
+            top_in = set(n.id for st in tree.body for n in ast.walk(st) if isinstance(n, ast.Name) and not isinstance(n.ctx, ast.Load)) if False else \
+                set(t.id for st in tree.body if isinstance(st, ast.Assign) for t in st.targets if isinstance(t, ast.Name))
+            top_out = set(t.id for st in otree.body if isinstance(st, ast.Assign) for t in st.targets if isinstance(t, ast.Name))
+            if (top_out - top_in) & fb:
+                return 'C03.class_body.global_fallback_in_function'
+    return None
+
+
+def static_object_mech(src, opts):
+    try:
+        tree = ast.parse(src)
+    except Exception:
+        return None
+    if not opts.get('remove_object_base'):
+        return None
+    binds_object = any((isinstance(n, ast.ClassDef) and n.name == 'object') or (isinstance(n, ast.Name) and n.id == 'object' and isinstance(n.ctx, ast.Store)) or
+                       (isinstance(n, ast.alias) and (n.asname or n.name) == 'object') or (isinstance(n, ast.arg) and n.arg == 'object') for n in ast.walk(tree))
+    object_not_last = any(isinstance(n, ast.ClassDef) and any(isinstance(b, ast.Name) and b.id == 'object' for b in n.bases[:-1]) for n in ast.walk(tree))
+    if object_not_last:
+        return 'C01.object_base.mro_conflict'
+    if binds_object:
+        return 'C01.object_base.shadowed'
+    return None
+
+
+def classify(src, opts, pm, orig, detail, out=None):
     """mechanism keys (known_findings.txt)"""
     try:
         tree = ast.parse(src)
     except Exception:
         return None
+    m = static_mech(src, opts, out)
+    if m:
+        return m
     binds_object = any((isinstance(n, ast.ClassDef) and n.name == 'object') or (isinstance(n, ast.Name) and n.id == 'object' and isinstance(n.ctx, ast.Store)) or
                        (isinstance(n, ast.alias) and (n.asname or n.name) == 'object') or (isinstance(n, ast.arg) and n.arg == 'object') for n in ast.walk(tree))
     object_not_last = any(isinstance(n, ast.ClassDef) and any(isinstance(b, ast.Name) and b.id == 'object' for b in n.bases[:-1]) for n in ast.walk(tree))
@@ -92,7 +172,7 @@ def run_case(case):
             res['nontrivial'].append(common.sha(src) + '|' + common.opts_key(o))
         d = observe.same(a, q)
         if d:
-            mech = classify(src, o, pm, a, d)
+            mech = classify(src, o, pm, a, d, out)
             res['violations'].append({'mech': mech, 'detail': 'behaviour differs under [%s] (%s): %s' % (name, ','.join(k for k in common.SAFE_SWITCHES if o.get(k)), observe.describe_diff(a, q)),
                                       'witness': {'optset': name, 'opts': o, 'out': out[:2500]}})
     if res['violations']:
@@ -144,6 +224,80 @@ def gen_cases(tier, seed):
     for i, c in enumerate(cases):
         c['want_sample'] = i % 400 == 0
     return cases
+
+
+# ---------------------------------------------------------------------------------------------------- cross-interpreter layer
+def cross_programs(tier, seed):
+    quick = tier == 'quick'
+    for tag, s in seeds.all_seeds():
+        if tag.startswith(('d8', 'd12', 'd15', 'star_import')):
+            continue
+        yield 'seed:' + tag, s
+    for tag, s in list(getattr(seeds, 'VERSION_SENSITIVE', [])) + list(getattr(seeds, 'PY2_SEEDS', [])):
+        yield 'vseed:' + tag, s
+    trig = list(triggergen.cases())
+    r = common.rng(seed, 'C01-cross-trig')
+    r.shuffle(trig)
+    for c in trig[:(120 if quick else 1500)]:
+        yield c['shape'], c['src']
+    for i in range(60 if quick else 1200):
+        s, _ = modgen.generate(seed, 190000 + i, guarded=True, size=8 + (i % 4) * 4)
+        yield 'modgen.guarded', s
+    for i in range(40 if quick else 800):
+        yield 'litgen', litgen.generate(seed, 195000 + i)
+    for c in scopegen.sampled_cases(seed + 11, 120 if quick else 3000):
+        if 'annotation' not in c['shape']:
+            yield c['shape'], c['src']
+    from vf.props import C04
+    for i, s in enumerate(C04.IFACE):
+        yield 'iface:%d' % i, s
+
+
+def cross_interpreter(run, tier, seed):
+    """P and minify(P) (minifier running in that interpreter) executed in every other installed interpreter: stdout, terminating exception / exit status, public namespace"""
+    r = common.rng(seed, 'C01-cross')
+    safe = options.safe_sets()
+    cases = []
+    for shape, src in cross_programs(tier, seed):
+        sets = [safe[0], safe[(len(cases) * 5 + 1) % len(safe)], ('random_safe', options.random_safe(r))]
+        cases.append({'op': 'run', 'shape': shape, 'src': src, 'optsets': [[n, o] for n, o in sets], 'case_timeout': 40})
+    for version, py in common.interpreters():
+        if version == '3.12-venv':
+            continue
+        if run.timed_out():
+            run.inconclusive['cross-interpreter layer cut at deadline before ' + version] = 1
+            continue
+
+        def on_x(c, res, version=version):
+            out = {'status': res.get('status'), 'violations': [], 'counters': {}, 'nontrivial': []}
+            if 'inconclusive' in res and res.get('status') is None:
+                run.add({'shape': c['shape'], 'interpreter': version, 'src': c['src'], 'layer': 'cross'}, res)
+                return
+            if res.get('status') == 'skip':
+                out['reason'] = 'cross-interpreter: ' + res.get('reason', 'skip')
+            if res.get('status') in ('held', 'violation'):
+                out['counters'] = {'cross_interpreter_programs_run': 1, 'cross_interpreter_variants_run': res.get('variants', 0),
+                                   'cross_interpreter_stdout_lines': res.get('stdout_lines', 0)}
+                run.cell('cross_interpreter_programs', version)
+                if res.get('changed'):
+                    out['nontrivial'] = ['cross|%s|%s' % (version, common.sha(c['src']))]
+            if res.get('status') == 'inconclusive':
+                out['reason'] = 'cross-interpreter: ' + res.get('reason', 'inconclusive')
+            for v in res.get('violations') or []:
+                mech = static_mech(c['src'], v.get('opts') or {}, v.get('out')) or static_object_mech(c['src'], v.get('opts') or {})
+                out['violations'].append({'mech': mech, 'detail': '%s: behaviour differs under [%s]: %s' % (version, v.get('optset'), v['detail']),
+                                          'witness': {'interpreter': version, 'opts': v.get('opts'), 'out': v.get('out')}})
+            slim = {'shape': c['shape'], 'interpreter': version, 'layer': 'cross'}
+            if out['violations']:
+                slim['src'] = c['src']
+                slim['optsets'] = c['optsets']
+            run.add(slim, out)
+        env = common.clean_env()
+        env['PYTHONPATH'] = common.REPO_SRC
+        env['PYTHONHASHSEED'] = '0'
+        import os as _os
+        pool.run_cases(cases, None, cmd=[py, '-W', 'ignore', _os.path.join(common.VERIF, 'vf', 'compat_worker.py')], env=env, timeout=60, batch=6, on_result=on_x,
+                       deadline=run.deadline, nworkers=8)
 
 
 # ---------------------------------------------------------------------------------------------------- self hosting
@@ -212,6 +366,7 @@ def main(tier, seed):
         run.cell('program_class', c['shape'].split('|')[0].split(':')[0].split('.')[0])
         run.add(slim, r)
     pool.run_cases(cases, 'vf.props.C01:run_case', timeout=150, batch=3, on_result=on, deadline=run.deadline)
+    cross_interpreter(run, tier, seed)
     try:
         self_hosting(run)
     except Exception as e:
@@ -237,7 +392,7 @@ def main(tier, seed):
         assumptions=['reprs of functions / classes / objects in stdout are normalised (names of locals, addresses: documented reflective views)',
                      'generators avoid keyword use of self / positional-only names, reflective access to local names and annotations with side effects',
                      'a program is used only if two runs of the original agree'],
-        min_nontrivial=200, required_counters=['programs_run', 'variants_run', 'history_events', 'self_hosting_tests_compared'] + (['stdlib_unit_tests_compared'] if mods else []))
+        min_nontrivial=200, required_counters=['programs_run', 'variants_run', 'history_events', 'self_hosting_tests_compared', 'cross_interpreter_variants_run'] + (['stdlib_unit_tests_compared'] if mods else []))
 
 
 def replay(path):
